@@ -178,6 +178,7 @@ class Env:
         self.call_style = call_style
         self.measure_depth = measure_depth
         self.notes = []
+        self.yield_hook = None     # thread explorer: explicit scheduling point inside callbacks
         self.flat_mode = False     # async engines: callbacks of one group overlap, never nest
 
     # -- observation helpers ---------------------------------------------------
@@ -285,6 +286,8 @@ class Env:
         rec = self._mk(prov, name, "act", args, kwargs)
         self.begin(rec)
         try:
+            if self.yield_hook is not None:
+                self.yield_hook()
             return self._steps(rec, kwargs)
         finally:
             self.end(rec)
